@@ -21,7 +21,15 @@ META = dict(
     rule=("every configuration path runs in a fresh forked interpreter; in the end state, for the public table and every "
           "private table on which the groups were initialised, every element x every ancillary quantity is compared "
           "with the independent reader (entry or absence), and every magnetic / Cromer-Mann coefficient set is evaluated "
-          "on the Q grid against the closed form; the Cromer-Mann entries are also read THROUGH THE ATOMS of every judged "
+          "on the Q grid against the closed form; MAGNETIC EVALUATION METHODS (added after round 8): every evaluation method "
+          "of every one of the 344 records - j0_Q, J_Q, j2_Q, j4_Q, j6_Q of the rows the ion has, and M_Q on the whole grid "
+          "as the second name of j0_Q - is called at Q = 0, 0.01, 0.5, 1, 2.5, 6, 4pi, 30 as a scalar, as one float64 array "
+          "(twice; the array comes back unaltered) and as a list, and must give the closed form (times s^2 for j2/j4/j6) "
+          "of the reference coefficients of ITS OWN order; an exception raised by a method is a finding "
+          "('magnetic-formfactor-raises'), not a failure of the check; a method whose values follow the row of another "
+          "order of the same ion is named ('magnetic-formfactor-serves-another-order:<method>-gives-<order>'), and the "
+          "method of an order for which the ion has no row serves no number; "
+          "the Cromer-Mann entries are also read THROUGH THE ATOMS of every judged "
           "table: every element, every ion (all charges of element.ions), every isotope and every isotope ion evaluates "
           ".xray.f0(Q) on the Q grid to the closed form of the entry written for its symbol and charge, and an atom "
           "without an entry serves no number; the other four tables are read through every isotope, ion and isotope ion "
@@ -77,13 +85,17 @@ META = dict(
                  "for numeric attributes, by the number printed"],
     level_text="complete over the finite domain (119 elements x 97 radii, 104 structure slots, 91 emission rows, 344 magnetic "
                "records / 98 charge states, 211 Cromer-Mann entries, and every isotope / ion / isotope-ion object of the table) "
-               "in each explored configuration; Q on a fixed grid",
+               "in each explored configuration; Q on a fixed grid (magnetic: 8 values of Q in [0, 30] x every evaluation method "
+               "of every record, scalar / float64 array / list)",
     level_note="independent readers in mc/ref/tables.py and mc/ref/xray.py (regex / ast / tokenize; no eval, no shared code) "
                "read the five tables from the text of the tree under test; where that text is unreadable the pinned copy "
                "mc/ref/pinned_tables.json made with the same readers from the unchanged tree is used",
 )
 
 QGRID = (0.0, 0.5, 4 * math.pi, 30.0)
+# the magnetic form factors: Q = 0 (orders >= 2 vanish, <j0> is 1), a small Q, Q where the orders differ most (1-6 1/Ang),
+# s = 1, the end of the stated range
+MQGRID = (0.0, 0.01, 0.5, 1.0, 2.5, 6.0, 4 * math.pi, 30.0)
 
 
 def ff0(c, q):
@@ -94,6 +106,53 @@ def ff0(c, q):
 
 def ffn(c, q):
     return (q / (4 * math.pi)) ** 2 * ff0(c, q)
+
+
+def curves_equal(u, v):
+    return len(u) == len(v) and all(close(a, b, 1e-9, 1e-12) for a, b in zip(u, v))
+
+
+def magnetic_evaluate(m, meth, ref_c, closed, Z, q, bad):
+    """Evaluate the method <meth>_Q of the record m of T[Z].magnetic_ff[q] on MQGRID - scalar by scalar, as one float64
+    array (twice; the caller's array comes back unaltered) and as a list - against the closed form of the reference
+    coefficients.  An exception of the method is a finding, not a failure of the check.  Returns the scalar values
+    (None when the method is missing or raised)."""
+    import numpy as np
+    where = "T[%d].magnetic_ff[%d].%s_Q" % (Z, q, meth)
+    want = [closed(ref_c, Q) for Q in MQGRID]
+    try:
+        fn = getattr(m, meth + "_Q")
+    except Exception as e:
+        bad("magnetic-formfactor-method-missing:" + meth, [Z, q], "a method", "%s: %s" % (type(e).__name__, e), "print(%s)" % where)
+        return None
+    served = []
+    for Q, w in zip(MQGRID, want):
+        try:
+            served.append(float(fn(Q)))
+        except Exception as e:
+            bad("magnetic-formfactor-raises:" + meth, [Z, q, Q], w, "%s: %s" % (type(e).__name__, e), "print(%s(%r))" % (where, Q))
+            return None
+    for Q, w, g in zip(MQGRID, want, served):
+        if not close(g, w, 1e-9, 1e-12):
+            bad("magnetic-M-is-j0" if meth == "M" else "magnetic-formfactor:" + meth, [Z, q, Q], w, g, "print(%s(%r))" % (where, Q))
+            break
+    Qarr = np.array(MQGRID, dtype=float)
+    before = Qarr.tobytes()
+    Qlist = list(MQGRID)
+    vcode = "import numpy\nQ = numpy.array(%r)\nprint(%s(Q)); print(Q); print(%s(Q)); print(%s(list(Q)))" % (list(MQGRID), where, where, where)
+    try:
+        r1 = np.asarray(fn(Qarr), dtype=float)
+        same = Qarr.tobytes() == before
+        r2 = np.asarray(fn(Qarr), dtype=float)
+        r3 = np.asarray(fn(Qlist), dtype=float)
+    except Exception as e:
+        bad("magnetic-formfactor-vector-raises:" + meth, [Z, q], "values", "%s: %s" % (type(e).__name__, e), vcode)
+        return served
+    if not same or Qarr.tobytes() != before or Qlist != list(MQGRID):
+        bad("magnetic-formfactor-alters-its-argument:" + meth, [Z, q], list(MQGRID), (Qarr.tolist(), Qlist), vcode)
+    elif not all(r.shape == (len(want),) and curves_equal(r.tolist(), want) for r in (r1, r2, r3)):
+        bad("magnetic-formfactor-vector:" + meth, [Z, q], want, (r1.tolist(), r2.tolist(), r3.tolist()), vcode)
+    return served
 
 
 def same_data(got, want):
@@ -282,6 +341,7 @@ def sweep(pt, T, label, path, acc, groups=None, origin=None):
                 continue
             for q in sorted(want):
                 m = got[q]
+                ref_curves, served_curves = {}, {}    # order -> closed form on MQGRID / method -> served values
                 for kind in ("j0", "J", "j2", "j4", "j6"):
                     cells += 1
                     alts = want[q].get(kind)
@@ -298,48 +358,66 @@ def sweep(pt, T, label, path, acc, groups=None, origin=None):
                         bad("magnetic-coefficients:" + kind, [Z, q], alts, c, code)
                         continue
                     ref_c = [a for a in alts if all(close(x, y, 1e-12, 1e-15) for x, y in zip(c, a))][0]
-                    fn = getattr(m, kind + "_Q")
-                    for Q in QGRID:
-                        cells += 1
-                        wantv = ff0(ref_c, Q) if kind in ("j0", "J") else ffn(ref_c, Q)
-                        gotv = float(fn(Q))
-                        if not close(gotv, wantv, 1e-9, 1e-12):
-                            bad("magnetic-formfactor:" + kind, [Z, q, Q], wantv, gotv,
-                                "print(T[%d].magnetic_ff[%d].%s_Q(%r))" % (Z, q, kind, Q))
-                            break
-                    # the same grid as one float64 array, evaluated twice (the caller's array must not be altered and
-                    # the second evaluation must give the same, correct, values)
-                    import numpy as np
-                    Qarr = np.array(QGRID, dtype=float)
-                    cells += 1
-                    try:
-                        v1 = np.asarray(fn(Qarr), dtype=float).tolist()
-                        same = Qarr.tolist() == list(QGRID)
-                        v2 = np.asarray(fn(Qarr), dtype=float).tolist()
-                    except Exception as e:
-                        bad("magnetic-formfactor-vector-raises:" + kind, [Z, q], "values", "%s: %s" % (type(e).__name__, e),
-                            "import numpy\nprint(T[%d].magnetic_ff[%d].%s_Q(numpy.array(%r)))" % (Z, q, kind, list(QGRID)))
-                    else:
-                        wantv = [ff0(ref_c, Q) if kind in ("j0", "J") else ffn(ref_c, Q) for Q in QGRID]
-                        vcode = ("import numpy\nQ = numpy.array(%r)\nm = T[%d].magnetic_ff[%d]\nprint(m.%s_Q(Q)); print(Q); print(m.%s_Q(Q))"
-                                 % (list(QGRID), Z, q, kind, kind))
-                        if not same:
-                            bad("magnetic-formfactor-alters-its-argument:" + kind, [Z, q], list(QGRID), Qarr.tolist(), vcode)
-                        elif not all(close(a, b, 1e-9, 1e-12) for a, b in zip(v1, wantv)) or \
-                                not all(close(a, b, 1e-9, 1e-12) for a, b in zip(v2, wantv)) or len(v1) != len(wantv):
-                            bad("magnetic-formfactor-vector:" + kind, [Z, q], wantv, (v1, v2), vcode)
+                    closed = ff0 if kind in ("j0", "J") else ffn
+                    ref_curves[kind] = [closed(ref_c, Q) for Q in MQGRID]
+                    # EVERY evaluation method of the record (M_Q is the second name of j0_Q), on the whole grid
+                    for meth in ((kind, "M") if kind == "j0" else (kind,)):
+                        served = magnetic_evaluate(m, meth, ref_c, closed, Z, q, bad)
+                        cells += 3 * len(MQGRID) + 1
+                        if served is not None:
+                            served_curves[meth] = served
                     if kind == "j0":
                         cells += 2
-                        v0 = float(m.j0_Q(0.0))
-                        if abs(v0 - 1.0) > 0.005:
+                        try:
+                            v0 = float(m.j0_Q(0.0))
+                        except Exception as e:
+                            v0 = "%s: %s" % (type(e).__name__, e)
+                        if isinstance(v0, str) or not abs(v0 - 1.0) <= 0.005:
                             bad("magnetic-j0-at-0", [Z, q], "1 +- 0.5%", v0, "print(T[%d].magnetic_ff[%d].j0_Q(0))" % (Z, q))
-                        if tuple(m.M) != c or not close(float(m.M_Q(0.5)), ff0(ref_c, 0.5), 1e-9):
-                            bad("magnetic-M-is-j0", [Z, q], c, tuple(m.M), "print(T[%d].magnetic_ff[%d].M)" % (Z, q))
-                    elif kind in ("j2", "j4", "j6"):
+                        try:
+                            cM = tuple(m.M)
+                        except Exception as e:
+                            cM = "%s: %s" % (type(e).__name__, e)
+                        if cM != c:
+                            bad("magnetic-M-is-j0", [Z, q], c, cM, "print(T[%d].magnetic_ff[%d].M)" % (Z, q))
+                    elif kind != "J" and kind in served_curves:     # (a method that raises is reported above)
+                        for Q0 in (0.0, 0):
+                            cells += 1
+                            try:
+                                v0 = float(getattr(m, kind + "_Q")(Q0))
+                            except Exception as e:
+                                v0 = "%s: %s" % (type(e).__name__, e)
+                            want0 = 0.0
+                            if isinstance(v0, str) or not abs(v0 - want0) <= 1e-12:
+                                bad("magnetic-jn-at-0:" + kind, [Z, q], want0, v0,
+                                    "print(T[%d].magnetic_ff[%d].%s_Q(%r))" % (Z, q, kind, Q0))
+                                break
+                # an order WITHOUT a row has no curve: its evaluation method serves no number (it may raise, or give
+                # None / NaN) - never the curve of another order or of a neighbour
+                for kind in ("j0", "J", "j2", "j4", "j6"):
+                    if want[q].get(kind) is None and not hasattr(m, kind):
                         cells += 1
-                        v0 = float(fn(0.0))
-                        if abs(v0) > 1e-12:
-                            bad("magnetic-jn-at-0:" + kind, [Z, q], 0.0, v0, "print(T[%d].magnetic_ff[%d].%s_Q(0))" % (Z, q, kind))
+                        try:
+                            v = getattr(m, kind + "_Q")(0.5)
+                            v = None if v is None else float(v)
+                        except Exception:
+                            continue
+                        if v is not None and not math.isnan(v):
+                            bad("magnetic-formfactor-without-entry:" + kind, [Z, q], "no number (no %s row)" % kind, v,
+                                "print(T[%d].magnetic_ff[%d].%s_Q(0.5))" % (Z, q, kind))
+                # methods of different orders of one ion differ wherever their rows differ; a method that does not
+                # follow its own row is named by the row it does follow
+                for a in sorted(served_curves):
+                    own = ref_curves["j0" if a == "M" else a]
+                    if curves_equal(served_curves[a], own):
+                        continue
+                    for b in sorted(ref_curves):
+                        if b != ("j0" if a == "M" else a) and not curves_equal(ref_curves[b], own) \
+                                and curves_equal(served_curves[a], ref_curves[b]):
+                            bad("magnetic-formfactor-serves-another-order:%s-gives-%s" % (a, b), [Z, q], own, served_curves[a],
+                                "m = T[%d].magnetic_ff[%d]\nprint([m.%s_Q(Q) for Q in %r]); print(m.%s, m.%s)"
+                                % (Z, q, a, list(MQGRID), "j0" if a == "M" else a, b))
+                            break
 
     # ---- the same quantities read through the other atom objects of an element (several types in one process):
     if want_group('atoms'):
